@@ -117,8 +117,11 @@ def ww_case(N, zero_cost=False):
         v = api.tensor(c, "v", (N, 1, 1), pos=True)
         prev = api.tensor(c, "prev", (N, 1, 1))
         inp = torch.cat([s, t, v, prev], dim=-1)
+        before = inp.clone()
         out = m(inp)
         c.check("ww shape", tuple(out.shape) == (N, 1, 1))
+        c.check("forward leaves the caller's feature tensor untouched", api.tensor_eq(inp, before))
+        c.check("a second evaluation on the same tensor gives the same hedge", api.tensor_eq(m(inp), out))
         delta = m.bs.delta(s, t, v)
         gamma = m.bs.gamma(s, t, v)
         w_code = m.width(inp[..., :-1])
